@@ -32,4 +32,13 @@ def main():
 
 
 if __name__ == "__main__":
-    sys.exit(main())
+    try:
+        code = main()
+    except SystemExit:
+        raise
+    except BaseException as e:  # a crash of the harness is never a verdict: exit 2, no VIOLATION line
+        import traceback
+        traceback.print_exc()
+        print(f"HARNESS-ERROR {type(e).__name__}: {e}", file=sys.stderr)
+        code = 2
+    sys.exit(code)
